@@ -34,6 +34,7 @@ import (
 
 const (
 	addrF  = "0x00000000000000000000000000000000000000f1"
+	addrP  = "0x00000000000000000000000000000000000000f2" // poor account: covers the flat fee, not a gas reservation
 	addrC1 = "0x00000000000000000000000000000000c0de0001"
 	addrC2 = "0x00000000000000000000000000000000c0de0002"
 	addrC3 = "0x00000000000000000000000000000000c0de0003" // uses opcodes introduced by proposal 022
@@ -110,6 +111,8 @@ func setup() {
 	st := node.LatestState()
 	ten, _ := utility.StrToBigInt("10")
 	st.SetBalance(common.HexToAddress(node.AcctA), ten)
+	poor, _ := utility.StrToBigInt("0.002")
+	st.SetBalance(common.HexToAddress(addrP), poor)
 	st.SetCode(common.HexToAddress(addrC1), storeLogCode())
 	st.SetNonce(common.HexToAddress(addrC1), 1)
 	st.SetCode(common.HexToAddress(addrC2), revertCode())
@@ -162,6 +165,8 @@ func acct(s string) string {
 		return node.AcctB
 	case "F":
 		return addrF
+	case "P":
+		return addrP
 	}
 	return s
 }
@@ -405,6 +410,15 @@ func block(specs []TxSpec, st *account.AccountDB, salt int) *types.Block {
 	h := node.Header(top, chainHeight+1, 1, 5, time.Date(2024, 5, 1, 0, 0, salt, 0, time.UTC))
 	b := &types.Block{Header: h}
 	for i, s := range specs {
+		if keepIdx != nil && salt == 0 {
+			keep := false
+			for _, k := range keepIdx {
+				keep = keep || k == i
+			}
+			if !keep {
+				continue
+			}
+		}
 		b.Transactions = append(b.Transactions, buildTx(s, i+salt*10, st))
 	}
 	h.Hash = h.GenHash()
@@ -502,7 +516,7 @@ func inputs(thorough bool) []Input {
 	// lists of <= L transactions over the mixed alphabet
 	alpha := []TxSpec{
 		{Kind: "create", Src: "A"}, {Kind: "call", Src: "A"}, {Kind: "callvalue", Src: "B"}, {Kind: "callrevert", Src: "A"},
-		{Kind: "calloog", Src: "B"}, {Kind: "ethcall", Src: "B"}, {Kind: "callforkops", Src: "B"}, {Kind: "callstakeops", Src: "B"}, {Kind: "apply", Src: "B"}, {Kind: "applypoor", Src: "A"},
+		{Kind: "calloog", Src: "B"}, {Kind: "ethcall", Src: "B"}, {Kind: "ethcall", Src: "P"}, {Kind: "call", Src: "P"}, {Kind: "callforkops", Src: "B"}, {Kind: "callstakeops", Src: "B"}, {Kind: "apply", Src: "B"}, {Kind: "applypoor", Src: "A"},
 		{Kind: "add", Src: "B"}, {Kind: "refund", Src: "B"}, {Kind: "change", Src: "B"},
 		{Kind: "transfer", Src: "B", Targets: [][2]string{{"A", "5"}}},
 		{Kind: "transfer", Src: "A", Targets: [][2]string{{"B", "6"}, {"A", "7"}}},
@@ -599,10 +613,62 @@ func exploreInput(c *fw.Ctx, in Input, bound int, last bool) bool {
 	if mapPts > 0 && st.Executions > 1 {
 		c.NontrivialN(1)
 	}
+	evictedNoTrace(c, in, base)
 	c.Count("map_iteration_points_default_runs", int64(mapPts))
 	c.Outcome(outcomeClass(base))
 	return true
 }
+
+// evictedNoTrace: the header carries the evicted list and the block body only the executed
+// transactions, so a node that receives the block executes the list WITHOUT the evicted
+// transactions; it must reach the same root and receipts as the node that executed the full
+// list.  Hence an evicted transaction must leave no trace in the state.
+func evictedNoTrace(c *fw.Ctx, in Input, base string) {
+	if in.Seam != "" {
+		return
+	}
+	var o obsT
+	json.Unmarshal([]byte(base), &o)
+	if len(o.Evicted) == 0 {
+		return
+	}
+	ev := map[string]bool{}
+	for _, e := range o.Evicted {
+		ev[e] = true
+	}
+	// rebuild the specs of the surviving transactions (hashes are recomputed from the same content)
+	st := node.StateAt(baseRoot)
+	full := block(in.Txs, st, 0)
+	var kept []TxSpec
+	for i, t := range full.Transactions {
+		if !ev[t.Hash.Hex()] {
+			kept = append(kept, in.Txs[i])
+		}
+	}
+	if len(kept) == len(in.Txs) {
+		return
+	}
+	keepIdx = nil
+	for i, t := range full.Transactions {
+		if !ev[t.Hash.Hex()] {
+			keepIdx = append(keepIdx, i)
+		}
+	}
+	sub, _ := execute(in, fw.NewReplayChooser(nil))
+	keepIdx = nil
+	c.Eval(1)
+	var os obsT
+	json.Unmarshal([]byte(sub), &os)
+	c.Count("evicted_no_trace_comparisons", 1)
+	if os.Root != o.Root || strings.Join(os.Receipts, "|") != strings.Join(o.Receipts, "|") {
+		c.Violation("C01:evicted-tx-leaves-trace", "evicted", fmt.Sprintf("input %s: executing the list without its evicted transactions %v gives a different result than executing the full list (a node receiving the block cannot reproduce the proposer's root)\n full list   : %s\n without them: %s",
+			mustJSON(in), o.Evicted, base, sub), Case{Input: in})
+	}
+}
+
+// keepIdx, when set, restricts block() to these positions of the input list (same
+// transaction content and hashes, the others left out).
+var keepIdx []int
 
 func uniq(s []string) []string {
 	var o []string
